@@ -11,6 +11,7 @@ import (
 	"math"
 	"os"
 	"path/filepath"
+	"runtime"
 	"sort"
 	"strings"
 	"syscall"
@@ -60,6 +61,31 @@ type Spec struct {
 	High     uint64 `json:"high"`
 	Low      uint64 `json:"low"`
 	Marks    string `json:"water_marks,omitempty"` // how high/low were chosen
+	Race     *Race  `json:"race,omitempty"`        // kind "race": clean runs concurrently with one Retrieve/Store
+}
+
+// Race describes a cache in which clean has a long queue: Victims old entries of one target (queue
+// positions 0..Victims-1 by access time, 2000 s apart) and one more old entry ("precious") that Pos
+// victims precede.  clean(1, 0) runs in a goroutine; as soon as the first victim has disappeared (the
+// walk is over, the eviction loop is running) the process uses the precious entry.
+type Race struct {
+	Victims  int    `json:"victims"`
+	Files    int    `json:"files"`     // files per entry (uncompressed)
+	FileSize int    `json:"file_size"` // bytes per file
+	Pos      int    `json:"pos"`       // 1..Victims
+	How      string `json:"how"`       // retrieve | retrieve-outs | store
+	KeySeed  uint64 `json:"key_seed"`
+}
+
+// RaceObs is what was seen of the schedule.
+type RaceObs struct {
+	Attempts int  `json:"attempts"`
+	Started  bool `json:"eviction_observed"`  // the first victim disappeared while clean was running
+	OpOK     bool `json:"operation_succeeded"` // Retrieve returned true / Store left the entry in place
+	Hit      bool `json:"window_hit"`          // after the operation returned, the victim queued just before the precious entry was still there
+	KLo      int  `json:"iterations_started_at_least"`
+	KHi      int  `json:"iterations_started_at_most"`
+	Survived bool `json:"precious_survived"`
 }
 
 type Item struct {
@@ -82,6 +108,7 @@ type Obs struct {
 	Total     uint64     `json:"total_returned"`
 	Survivors [][]string `json:"survivors,omitempty"`
 	Removed   []string   `json:"removed"`
+	Race      *RaceObs   `json:"race_observed,omitempty"`
 }
 
 // ---------------------------------------------------------------------------------------------
@@ -373,6 +400,10 @@ func (r *run) oracle(c *lib.Ctx) {
 			case compress && contains(r.protTmp, p):
 				c.Fail("compressed-store-in-progress-not-marked",
 					fmt.Sprintf("the file %s that a Store of the current process is writing was removed (markDir marks <key>.tar.gz=, Store writes <key>=.tar.gz)", p), js)
+			case r.obs.Race != nil:
+				c.Fail("entry-marked-during-clean-removed",
+					fmt.Sprintf("%s of the entry %s was removed although the process had used it (%s) before the eviction loop reached it: "+
+						"when the call returned, the entry queued just before it was still in the cache", it.rel, p, r.spec.Race.How), js)
 			default:
 				c.Fail("protected-entry-removed", fmt.Sprintf("%s of the protected entry %s was removed", it.rel, p), js)
 			}
@@ -467,6 +498,245 @@ func contains(xs []string, x string) bool {
 func (o Obs) slim() Obs {
 	o.Items, o.Survivors, o.Calls = nil, nil, nil
 	return o
+}
+
+// ---------------------------------------------------------------------------------------------
+// clean concurrent with the process
+
+func genRace(r *lib.Rng, big bool) Spec {
+	v := r.Range(16, 32)
+	if big {
+		v = r.Range(40, 120)
+	}
+	sp := Spec{Kind: "race", Compress: r.Chance(1, 3), Root: "cache", High: 1, Low: 0, Marks: "high=1 low=0"}
+	rc := &Race{Victims: v, Files: r.Range(1, 3), FileSize: pick3(r, 0, 100, 3000), Pos: r.Range(v/2, v), KeySeed: r.U64()}
+	rc.How = lib.Pick(r, []string{"retrieve", "retrieve", "retrieve-outs", "store"})
+	if sp.Compress {
+		rc.Files = 1
+		if rc.How == "retrieve-outs" {
+			rc.How = "retrieve" // retrieving outputs from a compressed entry needs a real tarball
+		}
+	}
+	sp.Race = rc
+	return sp
+}
+
+func exists(p string) bool {
+	_, err := os.Lstat(p)
+	return err == nil
+}
+
+// executeRace builds the cache, starts the real clean in a goroutine and uses the precious entry as
+// soon as the first eviction is seen.  What it reports about the schedule is conservative: Hit is
+// only set when the entry queued immediately before the precious one still existed AFTER the
+// operation had returned, so the loop had not reached the precious entry when it was marked.
+func executeRace(spec Spec) *run {
+	rs := spec.Race
+	r := &run{spec: spec, after: map[string]bool{}}
+	r.obs.Race = &RaceObs{}
+	parent, err := os.MkdirTemp("", "c14-race-")
+	must(err)
+	defer os.RemoveAll(parent)
+	must(os.Chdir(parent))
+	core.RepoRoot = parent
+	cacheDir := filepath.Join(parent, spec.Root)
+	dc := cache.VerifNewDirCache(cacheDir, spec.Compress)
+	rel := func(p string) string {
+		x, err := filepath.Rel(parent, p)
+		must(err)
+		return x
+	}
+	kr := lib.NewRng(rs.KeySeed)
+	files := []string{}
+	for j := 0; j < rs.Files; j++ {
+		files = append(files, fmt.Sprintf("out%d.a", j))
+	}
+	writeEntry := func(p string) {
+		if spec.Compress {
+			writeFile(p, rs.FileSize)
+			return
+		}
+		must(os.MkdirAll(p, 0o755))
+		for _, f := range files {
+			writeFile(filepath.Join(p, f), rs.FileSize)
+		}
+	}
+	const base, step = 200_000, 2000
+	vt, pt := target("race", "victim"), target("race", "precious")
+	victims := make([]string, rs.Victims) // in queue order
+	for i := range victims {
+		victims[i] = dc.Path(vt, randKey(kr, 20))
+		writeEntry(victims[i])
+	}
+	pkey := randKey(kr, 20)
+	precious := dc.Path(pt, pkey)
+	writeEntry(precious)
+	for _, f := range files { // the outputs of the target, for Store and for Retrieve with outputs
+		writeFile(filepath.Join(parent, pt.OutDir(), f), rs.FileSize+1)
+		pt.AddOutput(f)
+	}
+	old := time.Unix(start-5_000_000, 0)
+	for i, p := range victims {
+		must(os.Chtimes(p, time.Unix(start+base+int64(i)*step, 0), old))
+	}
+	must(os.Chtimes(precious, time.Unix(start+base+int64(rs.Pos)*step-step/2, 0), old))
+	var tmp []lst
+	list(parent, spec.Root, &tmp)
+	list(parent, spec.Root, &r.before)
+	for _, it := range r.before {
+		r.obs.Items = append(r.obs.Items, Item{Path: comps(it.rel), Dir: it.dir, Size: it.size, Atime: it.atime})
+	}
+	r.obs.Total0 = dc.Clean(math.MaxUint64, 0)
+	var check []lst
+	list(parent, spec.Root, &check)
+	if len(check) != len(r.before) {
+		r.why = "clean(MaxUint64, 0) changed the cache directory"
+		return r
+	}
+	for i := range check { // the access times decide the queue order: they must be what was set
+		if check[i] != r.before[i] {
+			r.why = fmt.Sprintf("listing not stable: %+v became %+v", r.before[i], check[i])
+			return r
+		}
+	}
+	r.obs.Spec = r.spec
+
+	done := make(chan uint64, 1)
+	go func() { done <- dc.Clean(spec.High, spec.Low) }()
+	ro := r.obs.Race
+	deadline := time.Now().Add(60 * time.Second)
+	for exists(victims[0]) {
+		if time.Now().After(deadline) {
+			break
+		}
+		runtime.Gosched()
+	}
+	ro.Started = !exists(victims[0])
+	ro.KLo = 1
+	switch rs.How {
+	case "retrieve":
+		ro.OpOK = dc.Retrieve(pt, pkey, nil)
+	case "retrieve-outs":
+		ro.OpOK = dc.Retrieve(pt, pkey, files)
+	case "store":
+		dc.Store(pt, pkey, files)
+		ro.OpOK = true
+	default:
+		panic("unknown race operation " + rs.How)
+	}
+	ro.Hit = ro.Started && ro.OpOK && exists(victims[rs.Pos-1])
+	gone := 0
+	for gone < len(victims) && !exists(victims[gone]) {
+		gone++
+	}
+	ro.KHi = gone + 1 // the iteration after the last completed one may have passed its isMarked test
+	if ro.Hit {
+		ro.KHi = min(ro.KHi, rs.Pos)
+	}
+	select {
+	case r.obs.Total = <-done:
+	case <-time.After(120 * time.Second):
+		r.why = "clean did not finish within 120 s"
+		return r
+	}
+	var after []lst
+	list(parent, spec.Root, &after)
+	for _, it := range after {
+		r.after[it.rel] = true
+		r.obs.Survivors = append(r.obs.Survivors, comps(it.rel))
+	}
+	r.obs.Removed = []string{}
+	for _, it := range r.before {
+		if !r.after[it.rel] {
+			r.obs.Removed = append(r.obs.Removed, it.rel)
+		}
+	}
+	for _, it := range after {
+		if ex, _ := r.existedBefore(it.rel); !ex {
+			r.why = "clean created " + it.rel
+			return r
+		}
+	}
+	for _, p := range victims {
+		r.unprot = append(r.unprot, rel(p))
+	}
+	if ro.Hit {
+		r.prot = append(r.prot, rel(precious))
+		r.obs.Calls = []Call{{Path: comps(rel(precious)), Size: 0}}
+	}
+	ro.Survived = r.after[rel(precious)]
+	r.ok = true
+	return r
+}
+
+func coqRace(o *Obs) string {
+	items := make([]string, len(o.Items))
+	for i, it := range o.Items {
+		items[i] = lib.App("mkItem", coqPath(it.Path), lib.Bool(it.Dir), lib.N(it.Size), lib.Z(it.Atime))
+	}
+	surv := make([]string, len(o.Survivors))
+	for i, p := range o.Survivors {
+		surv[i] = coqPath(p)
+	}
+	st := lib.App("mkState", lib.Bool(o.Spec.Compress), lib.List(items), "[]", lib.N(o.Spec.High), lib.N(o.Spec.Low))
+	return lib.App("CRace", st, lib.Nat(o.Race.KLo), lib.Nat(o.Race.KHi), coqPath(o.Calls[0].Path), lib.N(o.Calls[0].Size), lib.N(o.Total), lib.List(surv))
+}
+
+// runRaces: schedule-dependent.  A run that misses the window (the loop was faster than the process)
+// proves nothing about the re-check and is only judged by the general oracle; hits are counted.
+func runRaces(c *lib.Ctx) {
+	n := c.Scale(36, 400)
+	hits, tries := 0, 0
+	for i := 0; i < n; i++ {
+		rg := c.Rng.Fork()
+		sp := genRace(rg, i%4 == 3)
+		var res *run
+		for attempt := 1; attempt <= 3; attempt++ {
+			res = executeRace(sp)
+			if !res.ok {
+				panic(fmt.Sprintf("race %d: %s (%+v)", i, res.why, *sp.Race))
+			}
+			res.obs.Race.Attempts = attempt
+			tries++
+			if res.obs.Race.Hit || sp.Race.How != "store" {
+				res.oracle(c)
+			} else {
+				// a Store that raced with the eviction of its own entry re-creates it: before/after listings
+				// say nothing about clean's accounting; only the other entries can be judged
+				c.Oracle()
+				for _, u := range res.unprot {
+					if res.after[u] {
+						c.Fail("bound-not-met", fmt.Sprintf("low water mark 0 but the unprotected entry %s survives", u), res.obs.slim())
+					}
+				}
+			}
+			if res.obs.Race.Hit {
+				break
+			}
+		}
+		ro := res.obs.Race
+		key := fmt.Sprint("race", *sp.Race, sp.Compress)
+		// the model side: a Retrieve is one markDir call; sort.Slice agrees with the model's insertion sort
+		// because the access times are all more than the grace period apart
+		if ro.Hit && sp.Race.How != "store" && len(res.obs.Items) <= 140 {
+			c.Case(coqRace(&res.obs), res.obs.slim(), key, true)
+		} else {
+			c.Eval(res.obs.slim(), key, ro.Hit)
+		}
+		if ro.Hit {
+			hits++
+			c.Hist("race_window", "hit ("+sp.Race.How+")")
+			c.HistN("race_iterations_started_at_most", min(ro.KHi, 20))
+		} else if !ro.Started {
+			c.Hist("race_window", "no eviction observed")
+		} else if !ro.OpOK {
+			c.Hist("race_window", "missed: the entry was already gone")
+		} else {
+			c.Hist("race_window", "missed: the loop had passed the preceding entry when the call returned")
+		}
+		c.Hist("kind", sp.Kind)
+	}
+	c.Note("concurrent stream: %d of %d scenarios (%d executions) marked the entry after the first eviction and before the loop reached it", hits, n, tries)
 }
 
 // ---------------------------------------------------------------------------------------------
@@ -838,10 +1108,34 @@ func main() {
 			"begin = Store in progress), 0-3 files each, sizes 0-20000, access times set with Chtimes in clusters around the 600 s grace period, compressed and uncompressed, " +
 			"stray files and directories with entry-shaped names, water marks at and around the size the code computes; an adversarial stream of 8 boundary layouts " +
 			"(entry-shaped target / package / cache-directory names, occupied rename target, store in progress, entry-shaped content, ties, all-or-nothing); " +
-			"plus shouldClean on all name lengths 0-48 with the padding at and next to the tested index. " +
+			"plus shouldClean on all name lengths 0-48 with the padding at and next to the tested index; " +
+			"plus a concurrent stream: 16-120 old entries 2000 s apart and one more entry queued behind at least half of them, the real clean(1, 0) in a goroutine, " +
+			"Retrieve (with and without outputs) or Store of that entry fired when the first eviction is observed, counted as a hit only if the entry queued just before it " +
+			"still exists when the call has returned; on a hit the entry must survive and (Retrieve) the model's interleaved run must give the same directory. " +
 			"distinct = distinct layouts+marks; non-trivial = at least one unprotected and one protected entry and size >= high water mark")
 
 		var replay Obs
+		if c.ReadReplay(&replay) && replay.Spec.Race != nil {
+			// schedule-dependent: repeat until the window is hit (or give up; the oracle then has nothing to say)
+			var r *run
+			for attempt := 1; attempt <= 20; attempt++ {
+				r = executeRace(replay.Spec)
+				if !r.ok {
+					panic("replay: " + r.why)
+				}
+				r.obs.Race.Attempts = attempt
+				if r.obs.Race.Hit {
+					break
+				}
+			}
+			if r.obs.Race.Hit && replay.Spec.Race.How != "store" {
+				c.Case(coqRace(&r.obs), r.obs.slim(), "replay", true)
+			} else {
+				c.Eval(r.obs.slim(), "replay", r.obs.Race.Hit)
+			}
+			r.oracle(c)
+			return
+		}
 		if c.ReadReplay(&replay) {
 			r := execute(replay.Spec, nil)
 			if !r.ok {
@@ -853,6 +1147,7 @@ func main() {
 		}
 
 		runNames(c)
+		runRaces(c)
 
 		n := c.Scale(420, 9000)
 		skipped := 0
